@@ -279,7 +279,7 @@ func c10Ops() []c10Op {
 
 func runC10(c *Ctx) {
 	r := c.R
-	r.SetRule("three buckets pre-filled with the same related keys (k, d/x, d/y, d/e/z, other, .dot/file); every operation kind (PUT, GET, HEAD, DELETE, copy-to, copy-from, multi-delete, browser POST, multipart complete, Go PutObject/DeleteObject/GetObject, listing prefix, bucket-level requests on hostile bucket names, multipart upload ids presented with other keys and buckets) x ~85 hostile keys ('.', '..', traversal into sibling buckets and bookkeeping storage, './', '//', leading/trailing '/', backslashes, single/double percent-encoding, NUL/control bytes, 255/256-byte segments, internal names, path-prefixes of live keys, case/Unicode variants) on all seven backend configurations, each framed by whole-store snapshots (ListBuckets, listings, every object's body/ETag/metadata, bolt's raw buckets and _meta keys, the on-disk tree for fs-dir/single-dir); distinct = (backend, operation, key)")
+	r.SetRule("three buckets pre-filled with the same related keys (k, d/x, d/y, d/e/z, other, .dot/file); every operation kind (PUT, GET, HEAD, DELETE, copy-to, copy-from, multi-delete, browser POST, multipart complete, Go PutObject/DeleteObject/GetObject, listing prefix, bucket-level requests on hostile bucket names, multipart upload ids presented with other keys and buckets) x ~85 hostile keys ('.', '..', traversal into sibling buckets and bookkeeping storage, './', '//', leading/trailing '/', backslashes, single/double percent-encoding, NUL/control bytes, 255/256-byte segments, internal names, path-prefixes of live keys, case/Unicode variants) on all seven backend configurations, each framed by whole-store snapshots (ListBuckets, listings, every object's body/ETag/metadata, bolt's raw buckets and _meta keys, the on-disk tree for fs-dir/single-dir); and, on the file backends, every kind of request served while the n-th file-system call of a class fails (ENOSPC/EIO through a wrapper around the afero file system): every key the request is not addressed to reads as before; distinct = (backend, operation, key)")
 	kinds := drv.AllKinds
 	r.Set("backends", kinds)
 	keys := hostileKeys()
@@ -847,6 +847,9 @@ func runC10(c *Ctx) {
 			r.Sample(map[string]interface{}{"backend": j.kind, "operation": "put", "bucket": target, "keys": keys[:12], "frame_entries": len(baseline)})
 		}
 	})
+	if c.Only == "" {
+		runC10Faults(r)
+	}
 	r.Require("framed_ops_confined", 2000)
 	r.Require("accepted_hostile_ops", 500)
 	r.Require("refused_hostile_ops", 500)
